@@ -117,6 +117,8 @@ enum Req {
     JunosUnlock,
     JunosLoad,
     JunosCommit(usize),
+    /// a builder call sequence that leaves out a parameter (nothing the caller did not name may reach the wire unlicensed)
+    Partial(usize, Ds),
 }
 
 fn gen_ds(ctx: &mut Ctx) -> Ds {
@@ -130,7 +132,8 @@ fn gen_scheme(ctx: &mut Ctx) -> &'static str {
 }
 
 fn gen_req(ctx: &mut Ctx) -> Req {
-    match ctx.pick(18) {
+    match ctx.pick(19) {
+        18 => Req::Partial(ctx.pick(10), gen_ds(ctx)),
         0 => Req::Get(gen_flt(ctx)),
         1 => Req::GetConfig(gen_ds(ctx), gen_flt(ctx)),
         2 => {
@@ -200,6 +203,7 @@ fn intended_requirements(r: &Req) -> Option<Cnf> {
         Req::DeleteConfig(Src::Ds(d)) => d.as_target(),
         Req::DeleteConfig(Src::Url(s)) => vec![vec![format!("url:{s}")]],
         Req::DeleteConfig(Src::Config) => return None,
+        Req::Partial(..) => return None,
         Req::Lock(d) | Req::Unlock(d) => d.as_source(),
         Req::KillSession => vec![],
         Req::Commit { confirmed, timeout, persist, persist_id } => {
@@ -456,6 +460,18 @@ async fn issue(s: &mut Session<SimTransport>, r: &Req) -> Result<(), Error> {
         Req::JunosLock => s.rpc::<LockConfiguration, _>(|b| b.finish()).await?.await,
         Req::JunosUnlock => s.rpc::<UnlockConfiguration, _>(|b| b.finish()).await?.await,
         Req::JunosLoad => s.rpc::<LoadConfiguration<_>, _>(|b| b.source(Config::new(Opaque::from("<configuration/>"), Xml, Merge)).finish()).await?.await,
+        Req::Partial(k, ds) => match k {
+            0 => s.rpc::<EditConfig<Opaque>, _>(|b| b.config(Opaque::from("<top xmlns=\"urn:x\"/>")).finish()).await?.await,
+            1 => s.rpc::<EditConfig<Opaque>, _>(|b| b.url(url("file"))?.finish()).await?.await,
+            2 => s.rpc::<CopyConfig, _>(|b| b.source(ds.lib())?.finish()).await?.await,
+            3 => s.rpc::<CopyConfig, _>(|b| b.target(ds.lib())?.finish()).await?.await,
+            4 => s.rpc::<Lock, _>(|b| b.finish()).await?.await,
+            5 => s.rpc::<Unlock, _>(|b| b.finish()).await?.await,
+            6 => s.rpc::<KillSession, _>(|b| b.finish()).await?.await,
+            7 => s.rpc::<Validate, _>(|b| b.finish()).await?.await,
+            8 => s.rpc::<GetConfig<Opaque>, _>(|b| b.finish()).await?.await.map(|_| ()),
+            _ => s.rpc::<EditConfig<Opaque>, _>(|b| b.default_operation(DefaultOperation::Replace).finish()).await?.await,
+        },
         Req::JunosCommit(k) => {
             s.rpc::<CommitConfiguration, _>(|b| match k {
                 0 => b.finish(),
